@@ -101,6 +101,7 @@ def random_desc(rnd):
         d["fmt"] = rnd.choice(["str", "mat", "graph" if e != "smc" else "str", "circuit"])
     if e in ("compress", "smc", "fst"):
         d["circ"] = rnd.randrange(len(CIRCS[n]))
+        d["md"] = rnd.random() < 0.4          # the caller's circuit carries its own metadata
     if e in ("smc", "fst") and rnd.random() < 0.5:
         N = rnd.choice([n + 1, n + 2])
         d["N"] = N
@@ -156,6 +157,8 @@ def build_args(d):
         qc = QuantumCircuit(N)
         for nm, qs in CIRCS[n][d["circ"]]:
             getattr(qc, nm)(*qs)
+        if d.get("md"):
+            qc.metadata = {"owner": "caller", "run": 3}
         a["circuit"] = qc
     if "L" in d:
         a["L"] = list(d["L"])
@@ -389,10 +392,11 @@ def run_session(seed, nevents):
     rnd = random.Random(seed)
     pool = [random_desc(rnd) for _ in range(40)]   # few distinct requests -> many re-requests
     live = []                                       # (descriptor, returned object)
+    kept = []                                       # [descriptor, object, digest at return, event] - never mutated by the caller
     kept_args = {}                                  # descriptor key -> argument objects reused across calls
     log = []
     viol = []
-    stats = {"calls": 0, "cold": 0, "warm": 0, "mutations": 0, "rerequests": 0, "reused_args": 0, "entries": {}}
+    stats = {"calls": 0, "cold": 0, "warm": 0, "mutations": 0, "rerequests": 0, "reused_args": 0, "retained_checks": 0, "entries": {}}
     seen = set()
     for ev in range(nevents):
         r = rnd.random()
@@ -441,10 +445,26 @@ def run_session(seed, nevents):
                                  "(%s cache, arguments %s); recent caller-side mutations: %s; got %s ..., pristine %s ..."
                                  % (ev, k, rec["cache"], "reused" if reuse else "fresh", recent[-4:], json.dumps(got)[:160], json.dumps(want)[:160]),
                          "event": ev})
+        # retention monitor: objects handed out earlier and not touched by the caller must still be what they were
+        stats["retained_checks"] += len(kept)
+        for item in kept:
+            d0, obj0, dig0, ev0 = item
+            now = dig(obj0)
+            if now != dig0:
+                viol.append({"key": "returned-object-changed-later entry=%s" % d0["entry"],
+                             "what": "the object returned at event %d for %s was changed by the library during a later call (event %d: %s); "
+                                     "at return %s ..., now %s ..." % (ev0, json.dumps(d0, sort_keys=True), ev, k, json.dumps(dig0)[:120], json.dumps(now)[:120]),
+                             "event": ev})
+                item[2] = now
         if res is not None:
-            live.append((d, res))
-            if len(live) > 60:
-                live.pop(rnd.randrange(len(live)))
+            if rnd.random() < 0.5:
+                live.append((d, res))
+                if len(live) > 60:
+                    live.pop(rnd.randrange(len(live)))
+            else:
+                kept.append([d, res, got, ev])
+                if len(kept) > 25:
+                    kept.pop(rnd.randrange(len(kept)))
     zyg.close()
     memo = zyg.memo
     return {"stats": stats, "violations": viol[:30], "log_tail": log[-6:], "requests": list(memo.items())}
